@@ -112,6 +112,7 @@ def recover_arity_table(f, fl, prog=None):
     wlocals = {}
     default = None
     enum_stage = {}      # K -> (enum local, variant name)
+    payload_adt = None
     for bb, t in f.calls():
         if not is_bigint_eq(t):
             continue
@@ -128,6 +129,12 @@ def recover_arity_table(f, fl, prog=None):
                     and f.local_ty(s["pl"]["l"]) in ("i32", "usize", "i64", "u32", "isize"):
                 table[ks[0]] = op_int(s["rv"]["op"])
                 wlocals[s["pl"]["l"]] = wlocals.get(s["pl"]["l"], 0) + 1
+            elif not s["pl"]["p"] and s["rv"]["k"] == "agg" and s["rv"].get("agg") == "adt" and len(s["rv"]["ops"]) == 1 \
+                    and op_int(s["rv"]["ops"][0]) is not None and s["rv"].get("variant") and "std::" not in (s["rv"].get("adt") or "std::"):
+                # payload form: `W = Wanted::Exactly(n)` (a private enum instead of a sentinel integer)
+                table[ks[0]] = op_int(s["rv"]["ops"][0])
+                wlocals[s["pl"]["l"]] = wlocals.get(s["pl"]["l"], 0) + 1
+                payload_adt = s["rv"]["adt"]
             elif not s["pl"]["p"] and s["rv"]["k"] == "agg" and s["rv"].get("agg") == "adt" and not s["rv"]["ops"] \
                     and s["rv"].get("variant") and ks[0] not in enum_stage:
                 enum_stage[ks[0]] = (s["pl"]["l"], s["rv"]["adt"], s["rv"]["variant"])
@@ -176,6 +183,14 @@ def recover_arity_table(f, fl, prog=None):
         rest_vals = {n for v, n in stage2.items() if v not in mapped}
         default = next(iter(rest_vals)) if len(rest_vals) == 1 else None
     w = max(wlocals, key=wlocals.get) if wlocals else None
+    if w is not None and default is None and payload_adt is not None:
+        # payload form: the only other value W takes is a fieldless variant of the same enum - no count to enforce
+        others = [s2 for _, _, s2 in f.stmts() if s2["pl"]["l"] == w and not s2["pl"]["p"] and s2["rv"]["k"] == "agg"
+                  and s2["rv"].get("adt") == payload_adt and not s2["rv"]["ops"]]
+        counted = [s2 for _, _, s2 in f.stmts() if s2["pl"]["l"] == w and not s2["pl"]["p"] and s2["rv"]["k"] == "agg"
+                   and s2["rv"].get("adt") == payload_adt and s2["rv"]["ops"]]
+        if others and counted:
+            default = -1
     if w is not None and default is None:
         vals = set()
         for _, _, s in f.stmts():
@@ -560,7 +575,7 @@ def run(tier="quick", replay=None):
                     "63rd argument on" % sorted(set(fixed_width)) if fixed_width and not f_ok else ""), fn=GEN_REFS)
         # the result is the reduction's value
         val_ok = False
-        for cl in prog.closures_of(APPLY_OP):
+        for cl in prog.family(APPLY_OP):        # the function itself (`let Reduction(_, v) = ..?`) or one of its closures
             cfl2 = Flow(cl)
             for bb, t in cl.calls():
                 if (callee_of(t) or "").endswith("clvm::convert_from_clvm_rs"):
